@@ -274,3 +274,55 @@ Proof.
   intros Hl Hw H. destruct (folded_block_is_grammatical l hs b Hl Hw H) as [fs [Eb [Hok Hm]]].
   subst b. rewrite (hdr_parse_complete (Some l) [] fs rest Hok). rewrite Hm. reflexivity.
 Qed.
+
+(* ---- whole requests: C10's round trip without the "lines fit the limit" clause, for tight headers ---- *)
+From Http Require Import Model.Utf8 Model.Num Model.Request Spec.RequestGrammar Proofs.ReqGrammar.
+
+Section ReqFolded.
+  Variable uri : Type.
+  Variable uri_parse : bytes -> option uri.
+  Variable uri_show : uri -> bytes.
+
+  (* like WfRequest, except that header lines may be of any length: values are graphic characters separated by
+     single spaces, and the folding generator succeeds on them *)
+  Definition WfRequestFolded (cfg : rcfg) (v : req_value uri) (hb : bytes) : Prop :=
+    v_method v <> [] /\ method_ok (v_method v) /\
+    uri_ok uri uri_parse uri_show (v_target v) /\
+    over_limit (length (request_line (v_method v) (uri_show (v_target v)))) (rl cfg) = false /\
+    (exists l, hl cfg = Some l /\ (2 <= l)%N) /\
+    Forall tight_header (v_headers v) /\
+    hdr_generate_full (hl cfg) (v_headers v) = GOk hb /\
+    let head := N.of_nat (length (request_line (v_method v) (uri_show (v_target v))) + 2 + length hb) in
+    match header_value (v_headers v) CONTENT_LENGTH with
+    | None => v_body v = [] /\ within_max cfg head
+    | Some t => exists n, parse_dec t = Some n /\ length (v_body v) = N.to_nat n /\ within_max cfg (head + n)
+    end.
+
+  Theorem request_roundtrip_folded cfg v hb :
+    WfRequestFolded cfg v hb ->
+    exists g st,
+      req_generate_full cfg (v_method v) (uri_show (v_target v)) (v_headers v) (v_body v) = GOk g /\
+      req_parse uri uri_parse cfg req_init g = (st, Complete (length g)) /\
+      value_of uri st (v_target v) = v /\ r_target st = Some (v_target v).
+  Proof.
+    intros [Hm [Hmg [[Hup [Hune Hug]] [Hrl [[l [Hl Hl2]] [Hhs [Hgen Hbody]]]]]]].
+    rewrite Hl in Hgen.
+    destruct (folded_block_is_grammatical l (v_headers v) hb Hl2 Hhs Hgen) as [fs [Ehb [Hok Hmap]]].
+    unfold req_generate_full. rewrite Hl, Hgen.
+    eexists. 
+    assert (HI : IsRequest uri uri_parse cfg
+                   (v_method v ++ [SP] ++ uri_show (v_target v) ++ [SP] ++ HTTP11 ++ CRLF ++ hb ++ v_body v) v).
+    { unfold IsRequest. exists (uri_show (v_target v)), fs.
+      destruct (request_line_wellformed _ _ Hmg Hug) as [Hil Hutf].
+      split; [|split; [|split; [|split]]].
+      - unfold request_line. rewrite Ehb. rewrite <- !app_assoc. reflexivity.
+      - unfold request_line_ok. repeat split; try assumption.
+        + apply Hmg.
+        + apply graphic_no_sp. exact Hug.
+      - rewrite Hl. exact Hok.
+      - symmetry. exact Hmap.
+      - cbv zeta in *. rewrite <- Ehb. exact Hbody. }
+    destruct (req_parse_complete uri uri_parse cfg _ v [] HI) as [st [E [Hv Ht]]].
+    rewrite app_nil_r in E. exists st. split; [reflexivity|]. split; [exact E|]. split; assumption.
+  Qed.
+End ReqFolded.
